@@ -39,6 +39,10 @@ instance : RCast Nat Nat := ⟨id⟩
 /-- `u8/u16/u32 as usize` -/
 instance {w} : RCast (RInt false w) Nat := ⟨fun x => x.bv.toNat⟩
 
+/-- `usize::BITS` on the 64-bit targets the JIT supports (`pointer_type()` is `I64` in the
+    generated `cranelift_type`) -/
+def Usize.BITS : Nat := 64
+
 /-- `usize::is_multiple_of`: `rhs == 0` ⇒ `self == 0`, otherwise `self % rhs == 0`. -/
 def Usize.is_multiple_of (a b : Nat) : Bool := if b = 0 then a == 0 else a % b == 0
 
